@@ -58,11 +58,12 @@ CLAIMED = {
              "the original atoms translated by i*A+j*B+k*C with identical type/charge/group; type tables unchanged; new cell rows a*A,b*B,c*C; "
              "the set of positions modulo the new lattice equals that modulo the old lattice (infinite crystal unchanged); 1x1x1 is the "
              "identity; every bond, angle, dihedral and improper is copied into every image with its type (C12_terms_copied_per_image: tuples "
-             "shifted by image number x N, types repeated, coefficient tables unchanged). Extra term columns per image and the purity of "
+             "shifted by image number x N, types repeated, coefficient tables unchanged; C12_terms_within_one_image: every replicated tuple lies wholly "
+             "inside one image, reduces modulo N to an original tuple, and each kind has exactly a*b*c times as many terms). Extra term columns per image and the purity of "
              "the original object rest on the correspondence and on the property evaluated directly on the implementation's output.",
         design_ref="DESIGN.md section 5, C12",
         technique="Coq proof (fold over multiplier triples; integer lattice arithmetic by ring/div-mod) with model/implementation correspondence on grid coordinates",
-        note=NOTE_COMMON + " Clause resting on correspondence only: multiset of replicated terms; original object unmodified (Python mutation)."),
+        note=NOTE_COMMON + " Clause resting on correspondence only: extra per-term columns; original object unmodified (Python mutation)."),
     "C01": dict(
         text="Theorem C01_sound (all structures, patterns, tolerances, hints, and EVERY quaternion construction and random choice): each "
              "reported match lists one stored atom per pattern atom with the pattern's element, at stored position + one of the 27 lattice "
